@@ -516,6 +516,17 @@ class ListC(FragContract):
 
     def setup(self, cx, ex, st):
         st.assume(P(0) == cx.p0)
+        cx.entry_env = dict(st.env)
+        MN, MX = self.bounds(cx)
+        # data-dependent bounds range over the non-negative integers (property C03: "all integer bounds 0..k")
+        for b in (cx.cfg['min'], cx.cfg['max']):
+            if isinstance(b, str) and not b.lstrip('-').isdigit():
+                st.assume(cx.entry_env[b] >= 0)
+        regime = cx.cfg.get('regime')
+        if regime == 'max>=min':
+            st.assume(MX >= MN)
+        elif regime == 'max<min':
+            st.assume(MX < MN)
 
     def staging(self, cx):
         return cx.one(cx.names_initialised(is_empty_list), 'staging')
@@ -539,7 +550,7 @@ class ListC(FragContract):
             yield 'range', And(0 <= st.env['_pos'], st.env['_pos'] <= cx.N, reach(st.env['_pos']))
             yield 'elems', ForAll([j], Implies(And(0 <= j, j < k), And(c.ok(P(j), RHO0), s[j] == c.val(P(j), RHO0))))
             if MX is not None:
-                yield 'below-max', k < MX
+                yield 'within-max', k <= MX
 
         def havoc(ex, st):
             k = Length(st.env[sname])
